@@ -292,9 +292,16 @@ pub fn apply(ty: Ty, doc: &str, rw: &Rw) -> Option<String> {
                 if run.contains("]]>") || run.contains('<') || run.contains('&') {
                     return None;
                 }
+                // the blanks at the ends of a text token may be subject to trimming as long as they
+                // are plain text: the CDATA section stays inside the non-blank core of the token
+                let core_start = t.len() - t.trim_start_matches(is_xml_ws).len();
+                let core_end = t.trim_end_matches(is_xml_ws).len();
+                if a < core_start || b > core_end {
+                    return None;
+                }
                 // a raw '>' preceded by "]]" in the surrounding text is fine inside CDATA as long
                 // as the run itself does not contain the terminator
-                let whole = rw.arg % 5 == 0 && free.len() == t.chars().count() && !t.contains("]]>");
+                let whole = rw.arg % 5 == 0 && free.len() == t.chars().count() && !t.contains("]]>") && core_start == 0 && core_end == t.len();
                 if whole {
                     Some(splice(l.start, l.end, &format!("<![CDATA[{}]]>", t)))
                 } else {
@@ -631,9 +638,93 @@ pub struct DynRwCase {
 
 const TYPE_FREE_KINDS: [u8; 8] = [0, 1, 3, 4, 5, 7, 8, 9];
 
+/// the same with an arbitrary document as the original (coverage-guided campaigns provide it)
+#[derive(Clone, Debug, Serialize, Deserialize, PartialEq)]
+pub struct DynDocCase {
+    pub doc: String,
+    pub choices: Vec<u8>,
+    pub rewrites: Vec<Rw>,
+}
+
+/// The rewriter speaks about XML documents: tags balanced and named by XML names, attributes
+/// quoted, unique and named by XML names, comments free of `--`, a declaration only at the very
+/// start, no document type declaration (entity definitions are outside its model), no byte-order
+/// mark (a prolog could not be put in front of it). Anything else is outside its domain.
+pub fn in_rewriter_domain(doc: &str) -> bool {
+    use crate::xmlname::is_name;
+    if doc.starts_with('\u{feff}') {
+        return false;
+    }
+    let bytes = doc.as_bytes();
+    let mut stack: Vec<String> = vec![];
+    let tag_ok = |content: &[u8]| -> Option<String> {
+        let content = std::str::from_utf8(content).ok()?;
+        if content.ends_with('/') || content.chars().any(|c| c.is_whitespace() && !is_xml_ws(c)) {
+            return None;
+        }
+        let (name, attrs) = parse_tag(content)?;
+        if !is_name(&name) {
+            return None;
+        }
+        for (i, (k, v, _)) in attrs.iter().enumerate() {
+            if !is_name(k) || v.contains('<') || attrs[..i].iter().any(|(k2, _, _)| k2 == k) {
+                return None;
+            }
+        }
+        Some(name)
+    };
+    for (i, l) in refxml::lex(bytes).iter().enumerate() {
+        match &l.tok {
+            Tok::Start(c, _) => match tag_ok(c) {
+                Some(n) => stack.push(n),
+                None => return false,
+            },
+            Tok::Empty(c, _) => {
+                if tag_ok(c).is_none() {
+                    return false;
+                }
+            }
+            Tok::End(c) => {
+                let n = String::from_utf8_lossy(c);
+                if stack.pop().as_deref() != Some(n.trim_end_matches(is_xml_ws)) {
+                    return false;
+                }
+            }
+            Tok::Comment(c) => {
+                if c.windows(2).any(|w| w == b"--") || c.last() == Some(&b'-') {
+                    return false;
+                }
+            }
+            Tok::Decl(_) => {
+                if i != 0 {
+                    return false;
+                }
+            }
+            Tok::PI(c, n) => {
+                if !std::str::from_utf8(&c[..*n]).map_or(false, is_name) {
+                    return false;
+                }
+            }
+            Tok::Text(t) => {
+                if t.windows(3).any(|w| w == b"]]>") {
+                    return false;
+                }
+            }
+            Tok::CData(_) => {}
+            Tok::DocType(_) | Tok::ErrMissingDoctypeName | Tok::ErrSyntax(_) => return false,
+        }
+    }
+    stack.is_empty()
+}
+
+pub fn check_dyn_doc(c: &DynDocCase) -> Verdict {
+    if !in_rewriter_domain(&c.doc) {
+        return Verdict::excluded("not-an-xml-document-in-the-rewriter's-domain");
+    }
+    check_dyn_on(c.doc.clone(), &c.choices, &c.rewrites)
+}
+
 pub fn check_dyn(c: &DynRwCase) -> Verdict {
-    use crate::dynde;
-    let ty = c.value.ty();
     let opts = SerOpts { level: c.level % 3, indent: None, expand_empty: c.expand_empty, root: None };
     let original = match c.value.serialize_with(&opts) {
         Ok(x) => x,
@@ -654,7 +745,13 @@ pub fn check_dyn(c: &DynRwCase) -> Verdict {
             original.insert_str(pos, pieces[scale(*what, pieces.len())]);
         }
     }
-    let script = dynde::script_from_doc(&original, &c.choices);
+    check_dyn_on(original, &c.choices, &c.rewrites)
+}
+
+fn check_dyn_on(original: String, choices: &[u8], rewrites: &[Rw]) -> Verdict {
+    use crate::dynde;
+    let ty = Ty::Attrs; // the type-independent rewrites do not look at it
+    let script = dynde::script_from_doc(&original, choices);
     let budget = (original.len() * 8 + 256) * (script.depth() + 2) * 4;
     let run = |doc: &str| -> Result<Result<dynde::Tr, String>, String> {
         dynde::set_budget(budget);
@@ -671,7 +768,7 @@ pub fn check_dyn(c: &DynRwCase) -> Verdict {
     let mut doc = original.clone();
     let mut applied: Vec<&'static str> = vec![];
     const KIND: [&str; 12] = ["comment-between-tokens", "comment-inside-text", "whitespace-between-children", "text-to-cdata", "char-to-reference", "empty-vs-start-end", "attribute-order", "attribute-quotes", "attribute-spacing", "prolog-and-trailer", "unknown-attribute", "unknown-child"];
-    for rw in &c.rewrites {
+    for rw in rewrites {
         if !TYPE_FREE_KINDS.contains(&rw.kind) {
             continue;
         }
@@ -691,7 +788,7 @@ pub fn check_dyn(c: &DynRwCase) -> Verdict {
         Ok(Ok(got)) => Verdict::fail(format!("scripted target: rewrites {:?} changed what the visitors are shown: original {:?} -> {:?}; rewritten {:?} -> {:?} | script {:?}", applied, original, base, doc, got, script)),
         Ok(Err(e)) => Verdict::fail(format!("scripted target: rewrites {:?} made deserialization fail ({}): original {:?}; rewritten {:?} | script {:?}", applied, e, original, doc, script)),
         Err(p) => {
-            if p.contains("entered unreachable code: BytesEnd") && script.has_early_stop() {
+            if super::c07::is_f10_panic(&p, &script) {
                 v.excluded = Some("known finding F10 of C07");
                 return v;
             }
@@ -727,6 +824,7 @@ fn run(ctx: &Ctx) {
     ctx.run_regress::<NilCase, _>(check_nil);
     ctx.run_regress::<DynRwCase, _>(check_dyn);
     ctx.run_regress::<PairCase, _>(check_pair);
+    ctx.run_regress::<DynDocCase, _>(check_dyn_doc);
     let strat = || Box::new((any_val(), 0u8..3, any::<bool>(), prop::collection::vec(rw_strategy(), 1..7)).prop_map(|(value, level, expand_empty, rewrites)| Case { value, level, expand_empty, rewrites }));
     ctx.run_proptest_with("values-x-random-rewrites", ctx.tier.pick(1_500_000, 12_000_000), strat, check);
     let nil = || {
@@ -782,6 +880,10 @@ fn run(ctx: &Ctx) {
 }
 
 fn replay(stage: &str, case: &Value) -> Result<Verdict, String> {
+    if case.get("doc").is_some() {
+        let c: DynDocCase = serde_json::from_value(case.clone()).map_err(|e| e.to_string())?;
+        return Ok(check_dyn_doc(&c));
+    }
     if case.get("rewritten").is_some() {
         let c: PairCase = serde_json::from_value(case.clone()).map_err(|e| e.to_string())?;
         return Ok(check_pair(&c));
